@@ -19,6 +19,7 @@ import (
 
 	"verifharness/mon"
 
+	"github.com/google/go-configfs-tsm/configfs/configfsi"
 	"github.com/google/go-tdx-guest/rtmr"
 	_ "golang.org/x/crypto/blake2b" // make the other 384-bit hashes Available(), as they may be in a caller's binary
 	_ "golang.org/x/crypto/sha3"
@@ -47,6 +48,18 @@ type tsmOp struct {
 
 // modelTSM is an in-memory configfs-tsm rtmr subsystem: entries are directories holding
 // "index" and "digest"; writing 48 bytes to "digest" extends the register the entry is bound to.
+// byValueClient delegates to a model TSM; its dynamic type is a struct with a map field (not comparable, not hashable).
+type byValueClient struct {
+	m    *modelTSM
+	tags map[string]int
+}
+
+func (b byValueClient) MkdirTemp(dir, pattern string) (string, error) { return b.m.MkdirTemp(dir, pattern) }
+func (b byValueClient) ReadFile(name string) ([]byte, error)          { return b.m.ReadFile(name) }
+func (b byValueClient) ReadDir(dirname string) ([]os.DirEntry, error) { return b.m.ReadDir(dirname) }
+func (b byValueClient) WriteFile(name string, c []byte) error         { return b.m.WriteFile(name, c) }
+func (b byValueClient) RemoveAll(path string) error                   { return b.m.RemoveAll(path) }
+
 type modelTSM struct {
 	mu      sync.Mutex // a library that keeps a client beyond the call may use it from another goroutine
 	entries map[string]*tsmEntry
@@ -261,6 +274,7 @@ type rtmrHistory struct {
 	Reqs      []rtmrReq `json:"reqs"`
 	FailMkdir int       `json:"fail_mkdir"`
 	FailWrite int       `json:"fail_write"`
+	ByValue   bool      `json:"by_value,omitempty"` // hand the client over as a by-value, non-comparable struct
 }
 
 type rtmrResult struct {
@@ -296,11 +310,17 @@ func runRtmrHistory(h *rtmrHistory) rtmrResult {
 			}
 		}
 		var err error
+		// the client is handed over as the pointer itself or, for every other history, as a by-value struct whose dynamic type
+		// is not comparable (it carries a map): a client is an interface value, not a key
+		var cl configfsi.Client = m
+		if h.ByValue {
+			cl = byValueClient{m: m, tags: map[string]int{"history": step}}
+		}
 		pv, st := mon.Guard(func() {
 			if q.Kind == "digest" {
-				err = rtmr.ExtendDigestClient(m, q.Index, q.Digest)
+				err = rtmr.ExtendDigestClient(cl, q.Index, q.Digest)
 			} else {
-				err = rtmr.ExtendEventLogClient(m, q.Index, crypto.Hash(q.Hash), q.Log)
+				err = rtmr.ExtendEventLogClient(cl, q.Index, crypto.Hash(q.Hash), q.Log)
 			}
 		})
 		m.mu.Lock()
@@ -502,6 +522,9 @@ func c17(x *mon.Ctx) {
 		}
 		hs = append(hs, h)
 	}
+	for i, h := range hs {
+		h.ByValue = i%2 == 1
+	}
 	x.Each(len(hs), func(i int) {
 		h := hs[i]
 		x.Crumb(i, "rtmr-history", h)
@@ -510,7 +533,7 @@ func c17(x *mon.Ctx) {
 		for _, q := range h.Reqs {
 			names = append(names, q.String())
 		}
-		param := fmt.Sprintf("pre=%v fail=%d/%d %s", h.Pre, h.FailMkdir, h.FailWrite, strings.Join(names, " ; "))
+		param := fmt.Sprintf("pre=%v fail=%d/%d byvalue=%v %s", h.Pre, h.FailMkdir, h.FailWrite, h.ByValue, strings.Join(names, " ; "))
 		class := fmt.Sprintf("history-len-%d", min(len(h.Reqs), 4))
 		if res.problem != "" {
 			x.Violation(class, param, res.problem, "rtmr-history", h)
